@@ -352,6 +352,12 @@ func (cs corruptsim) runMeta(c *Case, dir string, img []byte, e *work.Exec, out 
 		for l := 1; l < dec.MetaSize; l++ {
 			copy(cur[base:], img[base:base+dec.MetaSize])
 			copy(cur[base:], rec[:l])
+			if string(cur[base:base+dec.MetaSize]) == string(rec[:]) {
+				// the bytes not yet overwritten happen to equal the new record's (1 in 256 for the last checksum
+				// byte): this is the complete newer meta record, not a partial overwrite - there is no damaged page
+				out.probe("partial-overwrite-equals-complete-record(skipped)", 1)
+				continue
+			}
 			patch(int64(base), cur[base:base+dec.MetaSize])
 			if !evaluate(cur, fmt.Sprintf("meta %d: first %d bytes overwritten by a newer meta record", mi, l), l%8 == 0, 1<<40|uint64(mi)<<20|uint64(l)) {
 				return
